@@ -706,6 +706,19 @@ func cmdRun(args []string) int {
 		next += uint64(spec.chunkLen)
 		return c, true
 	}
+	var detRes map[string]any
+	detDone := make(chan struct{})
+	go func() {
+		defer close(detDone)
+		if race || os.Getenv("VERIF_NOEVIDENCE") != "" {
+			return
+		}
+		ds, dp := 12, 3
+		if tier == "thorough" {
+			ds, dp = 60, 6
+		}
+		detRes = determinismSample(bin, prop, base+90000000, ds, dp)
+	}()
 	var wg sync.WaitGroup
 	for w := 0; w < nw; w++ {
 		wg.Add(1)
@@ -757,6 +770,7 @@ func cmdRun(args []string) int {
 		}()
 	}
 	wg.Wait()
+	<-detDone
 	if len(a.harness) > 0 {
 		fail2("harness errors (not a verdict), first: %s", a.harness[0])
 	}
@@ -878,6 +892,13 @@ func cmdRun(args []string) int {
 		},
 		"assumptions": assumptions(prop),
 	}
+	if detRes != nil {
+		ev["coverage"].(map[string]any)["determinism_sample"] = detRes
+		fmt.Printf("determinism sample: %v seeds x %v processes, %v divergent event hashes, %v divergent verdicts\n",
+			detRes["seeds"], detRes["processes"], detRes["divergent_event_hash"], detRes["divergent_verdict"])
+	} else if race {
+		ev["coverage"].(map[string]any)["determinism_sample"] = "not computed: race-detector runs (free-running phase / start-up simulation) have no event hash; replay files are re-run up to 6 times before a verdict"
+	}
 	os.MkdirAll(filepath.Join(verifDir, "evidence"), 0o755)
 	eb, _ := json.MarshalIndent(ev, "", " ")
 	if os.Getenv("VERIF_NOEVIDENCE") == "" { // set only by /verif/tools/try_patch.sh (trial runs against seeded changes)
@@ -925,6 +946,59 @@ func cmdReplay(args []string) int {
 		fmt.Printf("  NOTE: recorded signature was %s\n", rf.Signature)
 	}
 	return 1
+}
+
+// determinismSample runs the same seeds in several fresh processes at GOMAXPROCS 1/4/16 and
+// counts the seeds whose event-log hash / verdict differs between processes. Part of every
+// non-race check run (the result goes into the evidence, it is not a verdict).
+func determinismSample(bin, prop string, first uint64, seeds, procs int) map[string]any {
+	gmps := []int{1, 4, 16}
+	hashes := make([]map[uint64]string, procs)
+	verdicts := make([]map[uint64]string, procs)
+	var wg sync.WaitGroup
+	for p := 0; p < procs; p++ {
+		wg.Add(1)
+		go func(p int) {
+			defer wg.Done()
+			wo := runChunk(bin, prop, chunk{first, seeds}, gmps[p%len(gmps)])
+			h, v := map[uint64]string{}, map[uint64]string{}
+			for _, r := range wo.results {
+				h[r.Seed] = r.EventHash + "/" + fmt.Sprint(r.Steps)
+				if r.Violation != nil {
+					v[r.Seed] = r.Violation.Signature
+				}
+			}
+			for _, r := range wo.crashes {
+				h[r.Seed] = "crash"
+				if r.Violation != nil {
+					v[r.Seed] = "crash:" + r.Violation.Signature
+				}
+			}
+			hashes[p], verdicts[p] = h, v
+		}(p)
+	}
+	wg.Wait()
+	badHash, badVerdict := 0, 0
+	for s := first; s < first+uint64(seeds); s++ {
+		dh, dv := false, false
+		for p := 1; p < procs; p++ {
+			if hashes[p][s] != hashes[0][s] {
+				dh = true
+			}
+			if verdicts[p][s] != verdicts[0][s] {
+				dv = true
+			}
+		}
+		if dh {
+			badHash++
+		}
+		if dv {
+			badVerdict++
+		}
+	}
+	return map[string]any{"seeds": seeds, "processes": procs, "gomaxprocs": "1/4/16 in turn",
+		"divergent_event_hash": badHash, "divergent_verdict": badVerdict,
+		"what": "same seeds in fresh processes; event hash = every datagram, netlink request/answer, forwarded report and GTP-U packet with its simulated time"}
 }
 
 // determinism self-test: same seed in fresh processes at GOMAXPROCS 1/4/16 must give
